@@ -347,8 +347,13 @@ class Producer(object):
         if self.client._api_versions is None:
             # The message format depends on the produce version the broker
             # supports: wait for version discovery before building messages
+            def _version_lookup_failed(failure):
+                for req in requests:
+                    if not req.deferred.called:
+                        req.deferred.errback(failure)
+
             d = self.client.get_api_version(KafkaCodec.PRODUCE_KEY)
-            d.addCallback(lambda _: self._send_requests(parts_results, requests))
+            d.addCallbacks(lambda _: self._send_requests(parts_results, requests), _version_lookup_failed)
             return d
 
         # We use these dictionaries to be able to combine all the messages
